@@ -271,9 +271,21 @@ def check_assigns(fi, allowed, fresh_calls=(), cid=None, ignore_receivers=()):
     return out
 
 
-def check_instance_state_fresh(clsnode, modname, fields, cid=None):
-    """Every listed attribute is created per instance: __init__ assigns self.<f> a fresh display/constant or a
-    parameter-derived value, and the class body has no class-level attribute of that name."""
+def _is_fresh_value(v):
+    """an expression that builds a new object on every evaluation: an empty/literal display, a comprehension, dict()/list()/set()/x.copy()"""
+    if isinstance(v, (ast.Dict, ast.List, ast.Set, ast.ListComp, ast.DictComp, ast.SetComp)):
+        return True
+    if isinstance(v, ast.Call) and isinstance(v.func, ast.Name) and v.func.id in ('dict', 'list', 'set', 'defaultdict', 'OrderedDict'):
+        return True
+    if isinstance(v, ast.Call) and isinstance(v.func, ast.Attribute) and v.func.attr in ('copy', 'deepcopy') and not v.args:
+        return True
+    return False
+
+
+def check_instance_state_fresh(clsnode, modname, fields, cid=None, fresh=()):
+    """Every listed attribute is created per instance: __init__ assigns self.<f>, and the class body has no class-level attribute of that
+    name.  Attributes listed in `fresh` (mutable state private to the instance) must in addition be assigned, at every assignment in the class,
+    an object built on the spot - not a parameter (whose default value, or the caller's object, would be shared between instances)."""
     cid = cid or ('%s.%s#instance_state' % (modname, clsnode.name))
     class_level = set()
     init = None
@@ -300,6 +312,20 @@ def check_instance_state_fresh(clsnode, modname, fields, cid=None):
                             assigned = True
         if not assigned:
             bad.append('%s is not assigned in __init__' % f)
+        if f in fresh:
+            for n in ast.walk(clsnode):
+                if isinstance(n, (ast.Assign, ast.AnnAssign)):
+                    targets = n.targets if isinstance(n, ast.Assign) else [n.target]
+                    for t in targets:
+                        if isinstance(t, ast.Attribute) and isinstance(t.value, ast.Name) and t.value.id == 'self' and t.attr == f \
+                                and (n.value is None or not _is_fresh_value(n.value)):
+                            bad.append('line %d: self.%s = %s is not an object built on the spot (it may be shared with other instances)'
+                                       % (n.lineno, f, ast.unparse(n.value) if n.value is not None else '<none>'))
+    for n in ast.walk(clsnode):
+        if isinstance(n, ast.FunctionDef):
+            for d in list(n.args.defaults) + [d for d in n.args.kw_defaults if d is not None]:
+                if isinstance(d, (ast.Dict, ast.List, ast.Set)) or (isinstance(d, ast.Call) and isinstance(d.func, ast.Name) and d.func.id in ('dict', 'list', 'set')):
+                    bad.append('line %d: %s has a mutable default argument (one object shared by every call)' % (n.lineno, n.name))
     return [Clause(cid, not bad, '; '.join(bad) if bad else 'fields %s are per-instance' % list(fields))]
 
 
